@@ -182,7 +182,11 @@ func QueryPathWrites(p *core.Program, r *core.Report, rule string) {
 		})
 	}
 	r.Extra[rule+"_functions_on_query_paths"] = len(fns)
-	r.Floor(rule, 4)
+	// vacuity guard: the number of functions found on the query paths, not the number of reviewed writes among them -
+	// a query that stops writing state (e.g. no longer records a resolved namespace in the engine) is a legitimate edit
+	r.RuleCounts[rule+"-fns"] = len(fns)
+	r.Floor(rule+"-fns", 120)
+	r.Floor(rule, 0)
 }
 
 func isPkgVar(info *types.Info, id *ast.Ident) bool {
